@@ -13,7 +13,7 @@ for m in $(ls -d $WT/MUTANT_* | sort); do
   k=$(basename $m)
   echo "######## $ID $k"
   /verif/tools/vetmutant.sh $WT $m 2>&1 | cut -c1-300
-  git -C $WT apply $m/patch.diff || { echo "PATCH DOES NOT APPLY to HEAD"; continue; }
+  git -C $WT apply $m/patch.diff 2>/dev/null || git -C $WT apply -3 $m/patch.diff || { echo "PATCH DOES NOT APPLY to HEAD"; git -C $WT reset -q --hard; continue; }
   for c in $ID $EXTRA; do
     EV=/var/tmp/ev_r2/$ID-$k-$c; mkdir -p $EV
     OUT=$(VERIF_REPO=$WT VERIF_EVIDENCE_ROOT=$EV TIER=${TIER:-quick} /verif/check $c ${TIER:-quick} 2>&1)
@@ -22,5 +22,5 @@ for m in $(ls -d $WT/MUTANT_* | sort); do
     FIRST=$(echo "$OUT" | grep -m1 -E 'violation|ERROR' | cut -c1-200)
     echo "$c rc=$RC violations=$V $FIRST"
   done
-  git -C $WT checkout -q -- .
+  git -C $WT reset -q --hard
 done
